@@ -37,7 +37,7 @@ type Case struct {
 func ipt(x, y int64) [2]model.F { return [2]model.F{model.Of(float64(x)), model.Of(float64(y))} }
 
 func genInt(t *rapid.T) Case {
-	class := rapid.SampledFrom([]string{"touch-endpoints", "T-junction", "collinear-overlap", "collinear-touch", "collinear-disjoint", "parallel", "crossing", "near-parallel", "random-small", "random-big", "far", "axis-long-crossing", "long-crossing"}).Draw(t, "class")
+	class := rapid.SampledFrom([]string{"touch-endpoints", "T-junction", "collinear-overlap", "collinear-touch", "collinear-disjoint", "parallel", "crossing", "near-parallel", "random-small", "random-big", "random-wide", "far", "axis-long-crossing", "long-crossing"}).Draw(t, "class")
 	k := uint(rapid.IntRange(1, 19).Draw(t, "k"))
 	lim := int64(1) << k
 	rp := func(l string) [2]int64 {
@@ -131,6 +131,26 @@ func genInt(t *rapid.T) Case {
 		d = add(a, m, u)
 		d[1] += rapid.Int64Range(-1, 1).Draw(t, "d1")
 		d[0] += rapid.Int64Range(-1, 1).Draw(t, "d0")
+	case "random-wide":
+		// whole numbers at the widths of machine integers: differences need one more bit
+		// than the type, their products twice as many; every ordinate is at an extreme of
+		// the range a third of the time (fat configurations: determinants near 2^(2k+2))
+		lim = int64(1) << uint(rapid.SampledFrom([]int{26, 27, 30, 31, 32, 33, 40, 50}).Draw(t, "widek"))
+		wp := func(l string) [2]int64 {
+			var q [2]int64
+			for i := range q {
+				switch rapid.IntRange(0, 5).Draw(t, l+"ext") {
+				case 0:
+					q[i] = lim - 1 // the largest value of a two's-complement type of that width
+				case 1:
+					q[i] = -lim
+				default:
+					q[i] = rapid.Int64Range(-lim, lim).Draw(t, l+"v")
+				}
+			}
+			return q
+		}
+		a, b, c, d = wp("a"), wp("b"), wp("c"), wp("d")
 	case "random-small":
 		lim = int64(rapid.IntRange(1, 4).Draw(t, "side"))
 		a, b, c, d = rp("a"), rp("b"), rp("c"), rp("d")
@@ -544,7 +564,9 @@ func propOne(c Case) error {
 				}
 			}
 		}
-		if c.Integer {
+		// ("exactly representable inputs": whole numbers small enough that every product of
+		// two differences, and their sums, are exact in float64 - within 2^25)
+		if c.Integer && smallWhole(c) {
 			nr := lineintersector.LineIntersectsLine(lineintersector.NonRobustLineIntersector{}, coi(c, idx[0]), coi(c, idx[1]), coi(c, idx[2]), coi(c, idx[3]))
 			if nr.HasIntersection() != (wantKind != exact.NoInt) {
 				return fmt.Errorf("non-robust, variant %d of %v: HasIntersection = %v, exact type %v", vi, show(c), nr.HasIntersection(), lineintersection.Type(wantKind))
@@ -555,6 +577,17 @@ func propOne(c Case) error {
 		return fmt.Errorf("inputs modified")
 	}
 	return nil
+}
+
+func smallWhole(c Case) bool {
+	for _, p := range c.P {
+		for _, f := range p {
+			if math.Abs(f.V()) > 1<<25 {
+				return false
+			}
+		}
+	}
+	return true
 }
 
 // moderate: every ordinate is zero or between 2^-500 and 2^500 in magnitude, so that no
